@@ -43,7 +43,8 @@ EXPLANATION = (
     "interpreter of C17), so no output file carries text over from an earlier run. (R8) every dereference of a cast `Rename::object` in the generators is "
     "preceded on every CFG path from the definition of the Rename variable by a test of its `type`. "
     "Not decided: nondeterminism through undefined behaviour elsewhere (C05/C06 cover memory safety), locale, reads of "
-    "uninitialised locals, and the iteration order of the hash tables beyond 'hashes and comparators see characters only'.")
+    "uninitialised locals, and the iteration order of the hash tables beyond 'hashes and comparators see characters only'."
+    " (R9, engine shared with C18 R1) every unit of libexpress, exppp and exp2cxx re-parses without an incompatible-pointer, int/pointer or implicit-declaration diagnostic: no object reaches a sorting or printing helper under the wrong struct type (what such a helper takes for a name would be the bytes of a heap address).")
 
 OUT_COMPONENTS = ("exp2cxx", "exp2python", "exppp", "scanner")
 LIBC_FMT = {"fprintf": 1, "printf": 0, "sprintf": 1, "snprintf": 2, "dprintf": 1,
@@ -712,6 +713,12 @@ def r8_discriminated_object(prog, res):
 
 
 def run(prog, res, tier):
+    # an object handed to a helper under the wrong struct type is read through the wrong layout: what the helper takes for a name is
+    # then the bytes of a heap pointer, and anything ordered or printed by it changes with the address-space layout of the run
+    # (rule and engine shared with C18 R1: the units are re-parsed with the conversion diagnostics switched on)
+    from rules import c18
+    c18.r1_decls(res, tier, rule="R9.no_type_confusion", components={"express", "exppp", "exp2cxx"}, min_units=60,
+                 tail=" — the callee reads the object through the wrong layout; a name taken from it is made of pointer bytes, which differ from run to run")
     r8_discriminated_object(prog, res)
     r7_append_only_to_created(prog, res)
     r1_r2_formats(prog, res)
